@@ -452,7 +452,8 @@ class Concat(Op):
         return pb.concatenate(args["signals"], axis=ax)
 
 
-DMS = [0.01, 0.0, 0.05, 0.001, 0.2, -0.01]
+# (the last two keep delays moderate for bands that lie next to or across 0 Hz)
+DMS = [0.01, 0.0, 0.05, 0.001, 0.2, -0.01, 1e-9, 3e-9]
 
 
 def _ref_freq(z, kind):
@@ -550,6 +551,30 @@ class ChirpFromSignal(Op):
 
     def call(self, pb, z, args, desc):
         return args["dm"].chirp_from_signal(z, ref_freq=args["ref"])
+
+
+@register
+class ChirpFunction(Op):
+    """The public DM.chirp_function for one channel (NumPy array vs delayed Dask array)."""
+    name = "chirp_function"
+    terminal = True
+
+    def applies(self, info):
+        return info.is_radio and info.n > 0
+
+    def gen(self, tape, info):
+        return {"dm": DMS[tape.draw(len(DMS), "chf.dm")],
+                "ref": REFS[1 + tape.draw(len(REFS) - 1, "chf.ref")],
+                "chan": tape.draw(info.nchan, "chf.chan")}
+
+    def prepare(self, pb, z, desc):
+        return {"dm": pb.DM(desc["dm"]), "ref": _ref_freq(z, desc["ref"])}
+
+    def call(self, pb, z, args, desc):
+        import dask.array as da
+        f = z.channel_freqs[desc["chan"]]
+        return args["dm"].chirp_function(len(z), z.dt, f, args["ref"],
+                                         use_dask=isinstance(z.data, da.Array))
 
 
 def _scale_add(x, k=2.0, b=1.0):
